@@ -1,5 +1,6 @@
 import Gaftools.Props.C15Hist
 import Gaftools.Props.TieA
+import Gaftools.Props.C15Bicc
 #print axioms Gaftools.C15.findComp_exact
 #print axioms Gaftools.C15.components_partition
 #print axioms Gaftools.C15.dfs_once
@@ -10,3 +11,9 @@ import Gaftools.Props.TieA
 #print axioms Gaftools.C15.history_symmetric
 #print axioms Gaftools.C15.history_no_dangling
 #print axioms Gaftools.TieA.eDir_gen_eq_model
+#print axioms Gaftools.C15.bgo_terminates
+#print axioms Gaftools.C15.bgo_visits_all
+#print axioms Gaftools.C15.bgo_wellformed
+#print axioms Gaftools.C15.biccs_aps_sound
+#print axioms Gaftools.C15.biccs_aps_complete
+#print axioms Gaftools.C15.biccs_aps_exact
